@@ -20,7 +20,7 @@ META = {
                   "and interoperability=False; end-to-end: 6 documents x (no version, 2.0, 2.1) x 4 entry points must give the class a direct "
                   "parse gives; 6 identifiers only relaxed mode could admit must be refused at every entry point; the identifier accept-language "
                   "of strict mode is compared with the canonical RFC 4122 text form for all strings by regex inclusion with a uuid.UUID model.",
-    "level_text_more": 'Also: MemorySource/MemoryStore.load_from_file with a named version on bundles whose members carry no version; 16 objects the library itself builds (empty bundles, mixed bundle, markings, SCO/SRO, language content) recognised as their version when parsed back without naming one. Filesystem forwarding over 3 directory layouts with the number of parser calls equal to the number of stored files.',
+    "level_text_more": 'Also: MemorySource/MemoryStore.load_from_file with a named version on bundles whose members carry no version; 16 objects the library itself builds (empty bundles, mixed bundle, markings, SCO/SRO, language content) recognised as their version when parsed back without naming one. Filesystem forwarding over 3 directory layouts with the number of parser calls equal to the number of stored files. Rounds 5-6: nothing inside a result is built by the other version`s classes; extensions registered for one version only; memory stores / sinks / sources built with each version; references with observable type prefixes under 2.0.',
     "level_note": "Recorder stubs replace the callee; in-memory FS stub; uuid.UUID modelled by its documented normalisation (strip urn:/uuid:/braces/"
                   "hyphens, 32 hex digits) and contract-tested. TAXII store outside the claim.",
     "technique": "CrossHair symbolic execution of the real call sites with recorder stubs (z3), enumerated end-to-end entry points, regex-to-z3 "
